@@ -157,6 +157,14 @@ def check_C08(tier):
         hits = observed.get(json.dumps(c['search'], sort_keys=True), [])
         for e in rnd.sample(hits, min(2, len(hits))) + rnd.sample(universes[c['univ']], 2):
             mcalls.append(dict(op='match', search=c['search'], entry=e))
+    # the Sid that the search ITSELF becomes when it is instanced with its query (the query value replaces the one search
+    # symbol of the string): match must not answer by that identity where find would unfold the symbol differently
+    for c in calls:
+        sr = c['search']
+        sym = [i for i, sg in enumerate(sr['segs']) if sg in (['*'], ['**'], ['>'])]
+        if len(sym) == 1 and len(sr['query']) == 1 and len(sr['query'][0][1]) == 1 and all(len(sg) == 1 for sg in sr['segs']):
+            v = sr['query'][0][1][0]
+            mcalls.append(dict(op='match', search=sr, entry=[v if i == sym[0] else sg[0] for i, sg in enumerate(sr['segs'])]))
     K.code_to_spec(rep, env, conf, mcalls, 'sid.match(search) for sampled (search, entry) pairs of the family', tag='match')
     rep.exhaustive = True
     for t in ('findlist:star:found', 'findlist:star:nothing', 'findlist:error'):
